@@ -653,5 +653,14 @@ pub const fn format_error<const FORMAT: u128>() -> Error {
     NumberFormat::<FORMAT> {}.error()
 }
 
+/// Verification hook (off unless built with `--cfg lexical_verif`): run-time access
+/// to the validator that `NumberFormat::<FORMAT>::error` evaluates at compile time.
+#[cfg(lexical_verif)]
+#[doc(hidden)]
+#[inline(always)]
+pub const fn verif_format_error(format: u128) -> Error {
+    format_error_impl(format)
+}
+
 /// Standard number format. This is identical to the Rust string format.
 pub const STANDARD: u128 = NumberFormatBuilder::new().build_strict();
